@@ -343,7 +343,11 @@ func decide(r *oblResult, o *checkOpts, work string) {
 	q := r.E.query(ob, false)
 	if ob.Kind == "cover" {
 		// vacuity guards get a short budget: an undecided guard is reported, not fatal
-		ob.Res = solve(work, ob.Name, q, 5, o.seed, "")
+		budget := 5
+		if ob.Group != "" {
+			budget = 3 // antecedent guards: many, and an undecided one is only a note
+		}
+		ob.Res = solve(work, ob.Name, q, budget, o.seed, "")
 		return
 	}
 	t0 := time.Now()
